@@ -27,7 +27,8 @@ impl OutputFormat for CtrlA {
         let mut result = Vec::new();
         let mut last_attr = TextAttribute::default();
         let mut pos = Position::default();
-        let height = buf.get_line_count();
+        // rows that are allocated below the canvas (a layer can hold more lines than the buffer is high) are not part of the picture
+        let height = buf.get_line_count().min(buf.get_height());
 
         match options.screen_preparation {
             super::ScreenPreperation::None => {}
